@@ -18,13 +18,19 @@ def decodeTimeFrames (s : String) : Option (List TimeFrame) :=
     control is evaluated by the model instead of being passed in as `time=` -/
 def decodeCfg (t : List String) : Option Cfg := do
   let cfg ← Req.decodeCfg t
-  match kv t "tf", kv t "now" with
-  | some tf, some now =>
+  match kv t "tf", kv t "now", kv t "at" with
+  | some tf, _, some inst =>
+    -- `at=unix,offset`: the model reads the local wall clock itself
+    let es ← decodeTimeFrames tf
+    match splitList inst with
+    | [u, o] => some { cfg with timeAllowed := timeAllowedAt es (← intOf u) (← intOf o) }
+    | _ => none
+  | some tf, some now, none =>
     let es ← decodeTimeFrames tf
     match splitList now with
     | [w, h] => some { cfg with timeAllowed := timeAllowed es (← natOf w) (← natOf h) }
     | _ => none
-  | _, _ => some cfg
+  | _, _, _ => some cfg
 
 def ipString : Option (List Nat) → String
   | none => "none"
@@ -56,6 +62,10 @@ def handle : List String → String
   | ["auth", user, pass, value] =>
     match bytesOfHex user, bytesOfHex pass, bytesOfHex value with
     | some u, some p, some v => ofBool (authenticated u p v)
+    | _, _, _ => "bad-op"
+  | ["timeframe-at", tf, u, o] =>
+    match decodeTimeFrames tf, intOf u, intOf o with
+    | some es, some u, some o => s!"{ofBool (timeAllowedAt es u o)} {localWeekday u o} {localHour u o}"
     | _, _, _ => "bad-op"
   | ["timeframe", tf, w, h] =>
     match decodeTimeFrames tf, natOf w, natOf h with
